@@ -873,13 +873,19 @@ func inlineRule(c *Ctx, r *Report) {
 	}
 	wk := acceptedKinds(c, wd, kt, kinds)
 	rk := acceptedKinds(c, rdp, kt, kinds)
+	// a kind is rejected when its case does nothing but raise an error (`default: return raiseInlineNeedsObject`);
+	// a case that unpacks the field and raises when a validator fails afterwards accepts the kind
 	isRaise := func(hs map[string]bool) bool {
+		raises, works := false, false
 		for h := range hs {
-			if strings.HasPrefix(h, "raise") {
-				return true
+			switch {
+			case strings.HasPrefix(h, "raise"):
+				raises = true
+			case strings.HasPrefix(h, "reify") || strings.HasPrefix(h, "normalize") || strings.HasPrefix(h, "merge"):
+				works = true
 			}
 		}
-		return false
+		return raises && !works
 	}
 	var ws []string
 	for k, hs := range wk {
